@@ -371,6 +371,8 @@ def opTldGen (kind : String) (fields : List String) : String :=
 
 /-! ### walkers (C02) -/
 
+def hexNames (s : String) : List (List Nat) := if s == "." then [] else (s.splitOn ",").map (fun h => (unhexBytes h).getD [])
+
 def opWalk (kind : String) (fields : List String) : String :=
   match kind, fields with
   | "wcc", [h] =>
@@ -383,6 +385,9 @@ def opWalk (kind : String) (fields : List String) : String :=
     | none => "bad-op"
     | some bs => match Walkers.parseBMP bs with
       | none => "panic" | some none => "err" | some (some out) => "ok " ++ hexOfBytes out
+  | "wdn", [hs] =>
+    match Thresholds.dnNotPrintable (hexNames hs) with
+    | .pass => "pass" | .error => "error" | .panic => "panic"
   | "wfq", [h] => hexOfBytes (Walkers.fqdnArg ((unhexBytes h).getD []))
   | "wna", [o] =>
     match Walkers.isNameAttribute (if o == "-" then [] else parseOid o) with
@@ -391,7 +396,6 @@ def opWalk (kind : String) (fields : List String) : String :=
 
 /-! ### modelled name lints (C17 / C20) -/
 
-def hexNames (s : String) : List (List Nat) := if s == "." then [] else (s.splitOn ",").map (fun h => (unhexBytes h).getD [])
 
 def opNames (fields : List String) : String :=
   match fields with
@@ -515,6 +519,7 @@ def step (line : String) : String :=
   | "wbmp" :: rest => opWalk "wbmp" rest
   | "wna" :: rest => opWalk "wna" rest
   | "wfq" :: rest => opWalk "wfq" rest
+  | "wdn" :: rest => opWalk "wdn" rest
   | _ => "bad-op"
 
 partial def loop (h : IO.FS.Stream) (out : IO.FS.Stream) : IO Unit := do
